@@ -288,6 +288,12 @@ class Interp:
             t = None
             if b is not None and b[0] == "constant" and isinstance(b[1], ast.Tuple):
                 t = _table_term(b[1])
+            elif b is not None and isinstance(b[1], ast.Dict) and _read_only_name(self.prog.modules[fi.module].tree, name):
+                # a dispatch table: a dict display with constant keys that the module only ever reads
+                ks = [_table_term(k) if k is not None else None for k in b[1].keys]
+                vs = [_table_term(v) for v in b[1].values]
+                if all(k is not None and k[0] == "const" for k in ks) and all(v is not None for v in vs):
+                    t = ("dictlit", tuple(zip(ks, vs)))
             self._mtab[key] = t
         return self._mtab[key]
 
@@ -553,12 +559,14 @@ class Interp:
     def _fusable(self, it: Term, inline_comp: bool) -> Optional[Tuple[int, Tuple[Cond, ...], Term]]:
         """(inner loop, filter conditions, element value) when `it` is a comprehension with ONE generator over a plain iterable,
         built right here (same loop nest, same path condition) - iterating it is iterating its source."""
+        materialised = False
         if it[0] == "call" and it[1] in (("name", "list"), ("name", "tuple"), ("name", "iter")) and len(it[2]) == 1 and not it[3]:
+            materialised = it[1][1] != "iter"
             it = it[2][0]
         if it[0] != "obj" or self.objs[it[1]].kind not in ("genexp", "listcomp"):
             return None
-        if self.objs[it[1]].kind == "listcomp" and not inline_comp:
-            return None                   # a named list is a value of its own (iterated again, measured, returned)
+        if (self.objs[it[1]].kind == "listcomp" or materialised) and not inline_comp:
+            return None                   # a named list / tuple is a value of its own (iterated again, measured, returned)
         r = single_element(self, it)
         if r is None or len(r[0]) != 1 or r[3].kind != "elem":
             return None
@@ -845,6 +853,10 @@ class Interp:
         return tuple(out)
 
     def subscript(self, base: Term, idx: Term) -> Term:
+        if base[0] == "dictlit" and idx[0] == "const":
+            for k, v in base[1]:
+                if k == idx:
+                    return v
         # literal tuple with constant index
         if base[0] == "tuple" and idx[0] == "const" and isinstance(idx[2], int) and not isinstance(idx[2], bool) \
                 and -len(base[1]) <= idx[2] < len(base[1]):
@@ -903,9 +915,18 @@ class Interp:
         names = set()
         for g in n.generators:
             it = self.eval(g.iter, frame, cur)
+            # a comprehension over a generator expression is a comprehension over its source (as for `for` statements)
+            inline_comp = isinstance(g.iter, (ast.GeneratorExp, ast.ListComp))
+            fz = self._fusable(it, inline_comp)
+            if fz is not None:
+                L1, extra, val1 = fz
+                it = self.loops[L1].iter
             lp = self._new_loop("comp", it, g, cur, frame)
             elem = self.loop_element(it, lp)
             cur = _State(cur.conds, cur.loops + (lp.id,))
+            if fz is not None:
+                elem = reloop(val1, L1, lp.id)
+                cur = _State(cur.conds + tuple((reloop(c, L1, lp.id), pol) for c, pol in extra), cur.loops)
             for m in ast.walk(g.target):
                 if isinstance(m, ast.Name) and m.id not in saved:
                     saved[m.id] = frame.env.get(m.id, _MISSING)
@@ -1178,6 +1199,42 @@ def _const_expr(d: ast.AST) -> Term:
     if isinstance(d, ast.Tuple):
         return ("tuple", tuple(_const_expr(e) for e in d.elts))
     return ("name", "<default:" + ast.unparse(d) + ">")
+
+
+_READ_ONLY_METHODS = {"get", "items", "keys", "values", "__contains__", "__getitem__", "copy"}
+
+
+def _read_only_name(tree: ast.Module, name: str) -> bool:
+    """every use of the module-level name in its module is a read that cannot change the object (subscript load, `in`, len(),
+    iteration, .get/.items/.keys/.values) - apart from its one defining assignment"""
+    parents = {}
+    for n in ast.walk(tree):
+        for c in ast.iter_child_nodes(n):
+            parents[c] = n
+    stores = 0
+    for n in ast.walk(tree):
+        if not (isinstance(n, ast.Name) and n.id == name):
+            continue
+        par = parents.get(n)
+        if isinstance(n.ctx, ast.Store):
+            stores += 1
+            if not (isinstance(par, ast.Assign) and parents.get(par) is tree):
+                return False
+            continue
+        if isinstance(n.ctx, ast.Del):
+            return False
+        if isinstance(par, ast.Subscript) and par.value is n and isinstance(par.ctx, ast.Load):
+            continue
+        if isinstance(par, ast.Attribute) and par.value is n and par.attr in _READ_ONLY_METHODS:
+            continue
+        if isinstance(par, ast.Compare) and n in par.comparators and all(isinstance(o, (ast.In, ast.NotIn)) for o in par.ops):
+            continue
+        if isinstance(par, (ast.For, ast.comprehension)) and par.iter is n:
+            continue
+        if isinstance(par, ast.Call) and isinstance(par.func, ast.Name) and par.func.id in ("len", "sorted", "list", "tuple", "iter") and n in par.args:
+            continue
+        return False
+    return stores == 1
 
 
 def _ifexp_leaves(t: Term) -> List[Term]:
